@@ -189,7 +189,19 @@ def c09_extra(rep, rnd, first_id):
     r2 = random.Random(rnd.randrange(1 << 30))
     for r in codec.random_batch(n, r2.randrange(1 << 30), first_id=first_id):
         out.append(codec.enrich(r, forms=True))
-    rid = first_id + n
+    # structures with a single character-like member: T(bytes of exactly that length) is the documented value shortcut for a
+    # plain char member and nothing else (finding F48: a char bit field holds an integer)
+    from harness import absyn as A
+
+    singles = [A.field("a", A.t_char()), A.field("a", A.t_char(), 8), A.field("a", A.t_char(), 3), A.field("a", A.t_arr(A.t_char(), A.L_fixed(2))),
+               A.field("a", A.t_int("uint8")), A.field("a", A.t_wchar())]
+    for f in singles:
+        for e in "<>":
+            t = A.t_struct("ONE", [f])
+            scn = {"type": t, "mode": {"endian": e, "align": False, "ptr": 8}, "consts": {}, "defs": A.render(t, {})}
+            for data in (b"A", b"AB", b"\x00", b"\xff\x01"):
+                out.append(codec.enrich(codec.parse_record(first_id + n + len(out), scn, data, 0, r2.random() < 0.5), forms=True))
+    rid = first_id + n + 100
     for _ in range(n):
         scn = codec.gen_scenario(r2, {"eof": False})
         hs = codec.history_records(rid, scn, r2, r2.random() < 0.5)
